@@ -189,6 +189,27 @@ def gen_custom(rng, k):
     return text, list(dict.fromkeys(labels))
 
 
+def version_of(text, j, rng):
+    """Another table for the same labels: every taxon pattern gets the prefix v<j>/, a data line may
+    disappear."""
+    if j == 0:
+        return text
+    lines = text.split("\n")
+    out = [lines[0]]
+    cut = False
+    for line in lines[1:]:
+        if "-- EOF" in line:
+            cut = True
+        if cut or not line.strip():
+            out.append(line)
+        elif rng.random() < 0.15:
+            continue
+        else:
+            lead = line[:len(line) - len(line.lstrip())]
+            out.append(f"{lead}v{j}/{line.lstrip()}")
+    return "\n".join(out)
+
+
 class Checker:
     def __init__(self, ctx, drv, impl):
         self.ctx, self.drv, self.impl = ctx, drv, impl
@@ -310,6 +331,109 @@ class Checker:
                        "with spec = rows whose pattern regex.fullmatch-es the label, expanded with Match.expand",
             },
         })
+
+    # ---- several instances in one process, built on the SAME path rewritten in between
+    def run_multi_impl(self, texts, ops):
+        """ops: ["new", j] = write texts[j] to the shared path and build instance j from it;
+        ["call", j, L] = instance j translates L. Returns one entry per op (None for "new")."""
+        # one path per scenario (rewritten inside the scenario), never reused by another scenario, so
+        # that a scenario behaves as it would in a fresh process
+        path = self.ctx.scratch_dir() / f"shared-taxonomy-{next(self.paths)}.tsv"
+        inst, out = {}, []
+        for op in ops:
+            if op[0] == "new":
+                path.write_text(texts[op[1]], encoding="utf-8")
+                try:
+                    inst[op[1]] = self.impl.taxonomy(path)
+                except Exception as exc:  # noqa
+                    inst[op[1]] = exc
+                out.append(None)
+            else:
+                tax = inst[op[1]]
+                if isinstance(tax, Exception):
+                    out.append({"exc": type(tax).__name__})
+                    continue
+                try:
+                    out.append(list(tax.get_taxon_name_list(op[2])))
+                except Exception as exc:  # noqa
+                    out.append({"exc": type(exc).__name__})
+        return out
+
+    def run_multi_model(self, texts, ops):
+        """Each instance is its own state machine on the table it was built from: one `c09.run` per
+        instance with the calls it received, in order. Returns (model, spec) per op, or None if a
+        text is malformed."""
+        res = [None] * len(ops)
+        for j in {op[1] for op in ops if op[0] == "new"}:
+            idx = [i for i, op in enumerate(ops) if op[0] == "call" and op[1] == j]
+            rows, m = self.model_history({"text": texts[j]}, [ops[i][2] for i in idx])
+            if rows is None:
+                return None
+            for n, i in enumerate(idx):
+                res[i] = (m["model"][n], m["spec"][n])
+        return res
+
+    def multi_bad(self, texts, ops):
+        """First op on which the implementation contradicts the table of ITS instance, or None."""
+        m = self.run_multi_model(texts, ops)
+        if m is None:
+            return None
+        a = self.run_multi_impl(texts, ops)
+        for i, op in enumerate(ops):
+            if op[0] == "call" and (isinstance(a[i], dict) or sorted(a[i]) != sorted(m[i][1])):
+                return i, a[i], m[i][0], m[i][1]
+        return None
+
+    def multi_case(self, stream, texts, ops, tag):
+        ctx = self.ctx
+        m = self.run_multi_model(texts, ops)
+        if m is None:
+            return
+        a = self.run_multi_impl(texts, ops)
+        seen = set()
+        for i, op in enumerate(ops):
+            if op[0] != "call":
+                continue
+            j, L = op[1], op[2]
+            im, isp = m[i]
+            ctx.count(stream, (tag, j, L), nontrivial=bool(isp))
+            kind = "seen-by-this-instance" if (j, L) in seen else (
+                "seen-by-an-older-instance-only" if any(x[1] == L for x in seen) else "never-seen")
+            ctx.dist(f"{stream}:{kind}")
+            seen.add((j, L))
+            if im != isp:
+                ctx.broken.append("model-vs-spec")
+            if a[i] != im:
+                ctx.cov["disagreements_checked"] += 1
+                contradicts = isinstance(a[i], dict) or sorted(a[i]) != sorted(isp)
+                if contradicts and not self.reported:
+                    self.reported = True
+                    # shrink: an older instance translates L, the file is rewritten, the new instance translates L
+                    best = (texts, ops, i, a[i], im, isp)
+                    for jo in range(j):
+                        cand_ops = [["new", 0], ["call", 0, L], ["new", 1], ["call", 1, L]]
+                        cand_texts = [texts[jo], texts[j]]
+                        r = self.multi_bad(cand_texts, cand_ops)
+                        if r:
+                            best = (cand_texts, cand_ops) + r
+                            break
+                    else:
+                        r = self.multi_bad(texts, ops[:i + 1])
+                        if r:
+                            best = (texts, ops[:i + 1]) + r
+                    bt, bo, bi, ba, bm, bs = best
+                    ctx.violations.append({
+                        "what": "get_taxon_name_list of an instance differs from the table that instance was built from "
+                                "(several Taxonomy instances in one process, same path rewritten in between)",
+                        "signature": None,
+                        "replay": {"kind": "c09-multi", "stream": stream, "texts": bt, "ops": bo, "op_index": bi,
+                                   "label": bo[bi][2], "instance": bo[bi][1], "impl": ba, "model": bm, "spec": bs,
+                                   "how": "one path; [\"new\", j]: write texts[j] to that path and build Taxonomy(path) as "
+                                          "instance j; [\"call\", j, L]: instance j.get_taxon_name_list(L); the answer of "
+                                          "op_index must be the translation by the table texts[instance]"},
+                    })
+                elif not contradicts:
+                    ctx.broken.append(f"corr:{stream}:order")
 
     # ---- to_taxa
     def to_taxa_case(self, stream, src, path, calls, tag):
@@ -474,6 +598,8 @@ def run(ctx):
             "between repeats) and once more on a fresh instance; custom tables: random TSV files (literal rows, dots, groups, "
             "swapped/named groups, back-references, top-level alternation, nullable patterns, several/duplicated rows per "
             "label, literal+regex overlap, comments columns, -- EOF tails) with histories of 40 calls with repeats; "
+            "same-path-rewritten: 2-3 tables written one after the other to the SAME path, one instance built after each "
+            "write, all alive together, interleaved calls, every call compared with the table of its own instance; "
             "to_taxa: successive calls on one instance, final result and raw bags (deduplication switched off) against "
             "the model and rawCount; is_literal: bounded-exhaustive over a 31-token alphabet (lengths ≤ 2, selected ≤ 5)"
         )
@@ -541,6 +667,19 @@ def run(ctx):
                                for _ in range(rng.randint(0, 8))]
                 ck.to_taxa_case("custom-to_taxa", {"text": text}, path, [lab(), lab(), lab()], f"c{ctx.seed}-{k}")
             path.unlink()
+        # -- several instances on the same (rewritten) path, alive together, interleaved calls
+        n_multi = 120 if quick else 2500
+        for k in range(n_multi):
+            text, pool = gen_custom(rng, 10**6 + k)
+            n_inst = rng.randint(2, 3)
+            texts = [version_of(text, j, rng) for j in range(n_inst)]
+            ops = []
+            for j in range(n_inst):
+                ops.append(["new", j])
+                for _ in range(rng.randint(6, 14)):
+                    i = j if rng.random() < 0.6 else rng.randint(0, j)
+                    ops.append(["call", i, rng.choice(pool)])
+            ck.multi_case("same-path-rewritten", texts, ops, f"m{ctx.seed}-{k}")
         # -- malformed taxonomies
         for text in ["Taxa\tLabels\nonlyonefield\n", "Taxa\tLabels\nx/y\tfoo\n\nz/t\tbar\n", "h\nx/y\t(unclosed\n",
                      "", "header only", "h\n \t \n", "h\nx/y\tfoo\n-- EOF\nonefield\n", "h\nx/\\3\t(a)\n"]:
@@ -601,6 +740,19 @@ def replay(ctx, path):
     drv = core.Driver()
     ck = Checker(ctx, drv, impl)
     try:
+        if obj.get("kind") == "c09-multi":
+            r = ck.multi_bad(obj["texts"], obj["ops"])
+            print("texts :", json.dumps(obj["texts"])[:3000])
+            print("ops   :", json.dumps(obj["ops"]))
+            a = ck.run_multi_impl(obj["texts"], obj["ops"])
+            m = ck.run_multi_model(obj["texts"], obj["ops"])
+            i = r[0] if r else obj["op_index"]
+            print("op    :", i, json.dumps(obj["ops"][i]))
+            print("impl  :", json.dumps(a[i]))
+            print("model :", json.dumps(m[i][0] if m else None))
+            print("spec  :", json.dumps(m[i][1] if m else None))
+            print("VIOLATION reproduced" if r else "no violation on this input")
+            return 1 if r else 0
         src = obj["taxonomy"]
         p = None if src.get("default") else ck.write(src["text"])
         if obj.get("kind") == "c09-to_taxa-raw":
